@@ -967,6 +967,33 @@ func c20AssignStress(r *Rand) (vars []c20Var, e *aExpr, reads bool) {
 	return vars, e.parenthesize(), reads
 }
 
+// c20BaseLit: a valid base#digits constant for every base 2..64 (boundary bases favoured), digits
+// from the whole alphabet of the base in both cases (bases <= 36 are case-insensitive; 37..64 use
+// a-z = 10..35, A-Z = 36..61, @ = 62, _ = 63), always including the digit base-1.
+func c20BaseLit(r *Rand) string {
+	bases := []int{2, 8, 10, 11, 16, 35, 36, 36, 36, 37, 61, 62, 63, 64}
+	base := bases[r.Intn(len(bases))]
+	if r.Intn(3) == 0 {
+		base = 2 + r.Intn(63)
+	}
+	digit := func(d int) byte {
+		ch := c20Digits64[d]
+		if base <= 36 && ch >= 'a' && ch <= 'z' && r.Bool() {
+			ch = ch - 'a' + 'A'
+		}
+		return ch
+	}
+	n := 1 + r.Intn(4)
+	ds := []byte{digit(base - 1)}
+	for i := 1; i < n; i++ {
+		ds = append(ds, digit(r.Intn(base)))
+	}
+	if r.Bool() {
+		ds[0], ds[len(ds)-1] = ds[len(ds)-1], ds[0]
+	}
+	return strconv.Itoa(base) + "#" + string(ds)
+}
+
 // c20ShiftStress builds a grammatical expression around shifts whose count is negative, >= 64 or
 // huge, given literally, through unary minus, through a variable, or with <<= / >>=.  The values of
 // such shifts are outside the property's domain (bash is platform-defined there), so only "no Go
@@ -2262,6 +2289,41 @@ func c20(c *Ctx) {
 		}
 		c20EvalCase(c, vars, roAll, e, "wild")
 		c20ParseStreams(c, e)
+
+		// base#digits constants, all bases and both letter cases, as literals and as variable values
+		if i%5 == 0 {
+			l1, l2 := c20BaseLit(r), c20BaseLit(r)
+			bvars := []c20Var{{name: "x", val: r.Pick([]string{"", " ", "-", "+"}) + l1}, {name: "y", val: "x"}}
+			var be *aExpr
+			switch r.Intn(5) {
+			case 0:
+				be = aW(l2)
+			case 1:
+				be = aB("add", aW("x"), aW("1"))
+			case 2:
+				be = aB("sub", aW(l2), aW("y"))
+			case 3:
+				be = aB("addAssgn", aW("x"), aW(l2))
+			default:
+				be = aB("eql", aW(l2), aW(strings.ToLower(l2)))
+			}
+			be = be.parenthesize()
+			bvars = c20CompleteVars(bvars, be)
+			bgot := c20Eval(bvars, false, be.toSyntax())
+			c.Op("eval "+c20EnvArgs(bvars, false)+" "+be.enc(), bgot)
+			c.Case("baselit/"+c20EnvArgs(bvars, false)+"/"+be.enc(), true, "base-literal")
+			if bans, btag, _ := c20OracleRun(bvars, be); bans != "" {
+				c.Op("speceval "+c20EnvArgs(bvars, false)+" "+be.enc(), bgot)
+				if bgot != bans {
+					c.Fail("eval "+c20EnvArgs(bvars, false)+" "+be.enc(), fmt.Sprintf("expand.Arithm gives %q, big.Int oracle of bash arithmetic gives %q", bgot, bans))
+				}
+				if i%(5*max(1, shellEvery/2)) == 0 && len(shellCases) < nShell+220 && btag == "ok" {
+					if script, ok := c20ShellScript(bvars, be, r.Pick([]string{"exp", "cmd"})); ok {
+						shellCases = append(shellCases, c20ShellCase{script: script, ctx: "base-literal", witness: "sh " + c20Esc(script)})
+					}
+				}
+			}
+		}
 
 		// history: K evaluations on one Config; a few of them also as one script in interp vs bash
 		if i%40 == 0 {
